@@ -618,6 +618,9 @@ def rule_char_units(cx, tier):
                                   f"`{subject}` is read char by char under the test `{leaf} {'==' if opn == 'Eq' else '!='} "
                                   f"{b[1]}`, which counts bytes: a single non-ASCII character (2-4 bytes) takes the other "
                                   f"branch", fn.file, used[0].line))
-    r.floor("exact size tests guarding char-wise reads", n_sites, 1)
+    if n_sites == 0:
+        # nothing is tested by size any more (`match (chars.next(), chars.next()) { (Some(c), None) => .. }` decides "exactly one
+        # char" without a count): the rule has no subject, which is not a lost anchor -- it is a census, not a named function
+        r.notes.append("no exact size test guards char-wise reads in the koto crates")
     r.analysed = {"sites": n_sites, "char_counted": n_count}
     return r
